@@ -20,7 +20,8 @@ CONSTANTS
   MaxFuture,        \* MAX_FUTURE_BLOCK_TIME
   InitialSubsidy, HalvingInterval, MaxMoney,
   Horizon,          \* MAX_KNOWN_HASH_HEIGHT  (-1: nothing is below the horizon)
-  Known             \* KNOWN_HASHES: checkpointed height -> id
+  Known,            \* KNOWN_HASHES: checkpointed height -> id
+  RulesOff          \* names of rules switched off (necessity runs: the property a rule protects must then fail); normally {}
 
 VARIABLES
   blocks,           \* block_by_hash:           id -> block
@@ -138,15 +139,16 @@ ExpectedTarget(B, BH, p, ts) ==       \* p = parent id; result [ok, t]
 (*   over the transaction's complete reference list and outputs (NoKey: none)                  *)
 
 InRange(v) == 0 < v /\ v <= MaxMoney
+On(r) == r \notin RulesOff
 
 TxByItself(t) ==      \* validate_non_coinbase_transaction_by_itself; "" = passes
-  IF Len(t.ins) = 0 THEN "tx_noins"
-  ELSE IF Len(t.outs) = 0 THEN "tx_noouts"
+  IF On("tx_noins") /\ Len(t.ins) = 0 THEN "tx_noins"
+  ELSE IF On("tx_noouts") /\ Len(t.outs) = 0 THEN "tx_noouts"
   ELSE IF ~t.sizeok THEN "tx_size"
-  ELSE IF \E i \in 1..Len(t.outs) : ~InRange(t.outs[i].v) THEN "tx_range"
-  ELSE IF ~InRange(SumOuts(t)) THEN "tx_range"
-  ELSE IF Cardinality(Refs(t)) # Len(t.ins) THEN "tx_dupref"
-  ELSE IF \E i \in 1..Len(t.ins) : t.ins[i].ref = NullRef \/ t.ins[i].kind # "secp"
+  ELSE IF On("tx_range") /\ \E i \in 1..Len(t.outs) : ~InRange(t.outs[i].v) THEN "tx_range"
+  ELSE IF On("tx_range") /\ ~InRange(SumOuts(t)) THEN "tx_range"
+  ELSE IF On("tx_dupref") /\ Cardinality(Refs(t)) # Len(t.ins) THEN "tx_dupref"
+  ELSE IF On("tx_nosig") /\ \E i \in 1..Len(t.ins) : t.ins[i].ref = NullRef \/ t.ins[i].kind # "secp"
        THEN (LET i == CHOOSE j \in 1..Len(t.ins) :
                         /\ (t.ins[j].ref = NullRef \/ t.ins[j].kind # "secp")
                         /\ \A m \in 1..(j - 1) : ~(t.ins[m].ref = NullRef \/ t.ins[m].kind # "secp")
@@ -173,19 +175,19 @@ BlockRefSeq(b) == Flatten(AllRefSeq(OtherTxs(b)), 1)
 NoDup(s) == Cardinality(Range(s)) = Len(s)
 
 ByItself(b, now) ==
-  IF ~b.powok THEN "pow"
-  ELSE IF b.ts > now + MaxFuture THEN "future"
+  IF On("pow") /\ ~b.powok THEN "pow"
+  ELSE IF On("future") /\ b.ts > now + MaxFuture THEN "future"
   ELSE IF Len(b.txs) = 0 THEN "notx"
   ELSE IF ~b.sizeok THEN "size"
   ELSE LET cb == CoinbaseByItself(b.txs[1])
            ot == OtherTxs(b)
        IN IF cb # "" THEN cb
-          ELSE IF b.txs[1].ins[1].cbh # b.height THEN "cb_height"
+          ELSE IF On("cb_height") /\ b.txs[1].ins[1].cbh # b.height THEN "cb_height"
           ELSE LET tf == FirstTxFailure(ot, 1)
                IN IF tf # "" THEN tf
-                  ELSE IF ~NoDup([k \in 1..Len(ot) |-> ot[k].id]) THEN "duptx"
-                  ELSE IF ~NoDup(Flatten(AllRefSeq(ot), 1)) THEN "dupref"
-                  ELSE IF ~b.merkleok THEN "merkle"
+                  ELSE IF On("duptx") /\ ~NoDup([k \in 1..Len(ot) |-> ot[k].id]) THEN "duptx"
+                  ELSE IF On("dupref") /\ ~NoDup(Flatten(AllRefSeq(ot), 1)) THEN "dupref"
+                  ELSE IF On("merkle") /\ ~b.merkleok THEN "merkle"
                   ELSE ""
 
 (* rules, in state (validate_block_in_coinstate) *)
@@ -199,12 +201,12 @@ FeeSum(u, txs, i) ==     \* get_block_fees: a missing reference raises KeyError 
        IN [ok |-> rest.ok, f |-> inv - SumOuts(txs[i]) + rest.f]
 
 TxInState(u, t) ==      \* validate_non_coinbase_transaction_in_coinstate: inputs in order, then overspend
-  LET bad(i) == t.ins[i].ref \notin DOMAIN u \/ t.ins[i].signer # u[t.ins[i].ref].k
-                                            \/ t.ins[i].kind # "secp"
+  LET bad(i) == t.ins[i].ref \notin DOMAIN u \/ (On("tx_sig") /\ (t.ins[i].signer # u[t.ins[i].ref].k
+                                                                             \/ t.ins[i].kind # "secp"))
   IN IF \E i \in 1..Len(t.ins) : bad(i)
      THEN (LET i == CHOOSE j \in 1..Len(t.ins) : bad(j) /\ \A m \in 1..(j - 1) : ~bad(m)
            IN IF t.ins[i].ref \notin DOMAIN u THEN "tx_missing" ELSE "tx_sig")
-     ELSE IF SumOuts(t) > SumSeq([k \in 1..Len(t.ins) |-> u[t.ins[k].ref].v], 1) THEN "tx_overspend"
+     ELSE IF On("tx_overspend") /\ SumOuts(t) > SumSeq([k \in 1..Len(t.ins) |-> u[t.ins[k].ref].v], 1) THEN "tx_overspend"
      ELSE ""
 RECURSIVE FirstInStateFailure(_, _, _)
 FirstInStateFailure(u, txs, i) == IF i > Len(txs) THEN ""
@@ -217,15 +219,15 @@ InStateOn(c, b) ==      \* validate_block_in_coinstate(block, c) for a chain-sta
   IF b.height <= Horizon
   THEN (IF b.height \in DOMAIN Known /\ b.id # Known[b.height] THEN "checkpoint" ELSE "")
   ELSE IF b.parent \notin DOMAIN c.blocks THEN "parent"
-  ELSE IF b.ts <= c.blocks[b.parent].ts THEN "ts_order"
+  ELSE IF On("ts_order") /\ b.ts <= c.blocks[b.parent].ts THEN "ts_order"
   ELSE LET et == ExpectedTarget(c.blocks, c.byHeight, b.parent, b.ts)
            fs == FeeSum(c.utxo[b.parent], OtherTxs(b), 1)
        IN IF ~et.ok THEN "target_error"
-          ELSE IF b.target # et.t THEN "target"
-          ELSE IF ~b.evok THEN "evidence"
-          ELSE IF b.height # c.blocks[b.parent].height + 1 THEN "height"
+          ELSE IF On("target") /\ b.target # et.t THEN "target"
+          ELSE IF On("evidence") /\ ~b.evok THEN "evidence"
+          ELSE IF On("height") /\ b.height # c.blocks[b.parent].height + 1 THEN "height"
           ELSE IF ~fs.ok THEN "fees_error"
-          ELSE IF SumOuts(b.txs[1]) > fs.f + Subsidy(b.height) THEN "reward"
+          ELSE IF On("reward") /\ SumOuts(b.txs[1]) > fs.f + Subsidy(b.height) THEN "reward"
           ELSE FirstInStateFailure(c.utxo[b.parent], OtherTxs(b), 1)
 InState(b) == InStateOn(CSV, b)
 
